@@ -23,9 +23,12 @@ from vlib import Check, make_cfg, run_tlc, Infra
 PROP = "C11"
 
 BASE = {"N": 4, "NR": 2, "MaxEdges": 5, "MaxDead": 0, "Seeds": "<- c_Empty", "Grow": "TRUE",
-        "DepthSeq": "<- c_Depths4", "WalkSeqs": "<- c_Walks4", "AlgRels": "<- c_AllRels", "AlgTimes": '"now"'}
+        "DepthSeq": "<- c_Depths4", "WalkSeqs": "<- c_Walks4", "AlgRels": "<- c_AllRels", "AlgTimes": '"now"', "EmitTimes": '"all"'}
 CHAINS = dict(BASE, N=7, MaxEdges=13, MaxDead=3, Seeds="<- c_Chains", Grow="FALSE",
               DepthSeq="<- c_Depths7", WalkSeqs="<- c_WalksShort")
+# graphs on 6 nodes whose answers are checked at the order-independent times under several insertion orders
+ROUTES = dict(BASE, N=6, MaxEdges=8, MaxDead=0, Seeds="<- c_Routes", Grow="FALSE",
+              DepthSeq="<- c_Depths7", WalkSeqs="<- c_WalksShort", EmitTimes='"ends"')
 CAP = dict(BASE, MaxEdges=5, MaxDead=3, Seeds="<- c_CapGraphs", Grow="FALSE", WalkSeqs="<- c_WalksLong")
 
 ALG_INVS = ["Inv_Family", "Inv_FoundIsShortestValid", "Inv_NoneOnlyBeyondDepth", "Inv_ScopeExact", "Inv_ScopeLabels",
@@ -103,11 +106,31 @@ def sample_graphs(rng, n, max_dead=2):
     return sorted(out)
 
 
-def profile(walks, rel_order=0):
-    return {"batch": 25, "search": True, "traverse": True, "rel_order": rel_order, "max_div": 3, "walk_seqs": walks}
+def sample_graphs6(rng, n, N=6, NR=2):
+    """Seeded sample of labelled graphs on 6 nodes with 5..8 live edges (mostly one relation, so that
+    alternative routes of different length between two nodes are frequent)."""
+    out = set()
+    while len(out) < n:
+        k = rng.choice([5, 6, 6, 7, 7, 8])
+        codes, touched = set(), []
+        while len(codes) < k:
+            s = rng.choice(touched) if touched and rng.random() < 0.7 else rng.randrange(N)
+            t = rng.randrange(N)
+            if s == t and rng.random() < 0.8:
+                continue
+            r = 0 if rng.random() < 0.8 else rng.randrange(NR)
+            codes.add(3 * ((s * N + t) * NR + r))
+            touched += [s, t]
+        out.add(tuple(sorted(codes)))
+    return sorted(out)
 
 
-TOTALS = ["graphs", "queries", "findpath", "paths_found", "paths_beyond_depth", "extract", "search", "traverse",
+def profile(walks, rel_order=0, orders=0):
+    return {"batch": 25, "search": True, "traverse": True, "rel_order": rel_order, "max_div": 3, "walk_seqs": walks,
+            "orders": orders, "seed": vlib.seed()}
+
+
+TOTALS = ["graphs", "builds", "queries", "findpath", "paths_found", "paths_beyond_depth", "extract", "search", "traverse",
           "nontrivial", "time_travel", "div_total"]
 
 
@@ -178,9 +201,12 @@ def run(tier):
     quick = tier == "quick"
     totals = {}
     rel_order = vlib.seed() % 2
-    prof4 = profile(WALKS4, rel_order)
-    prof7 = profile(WALKS_SHORT, rel_order)
-    profcap = profile(WALKS_LONG, rel_order)
+    # every graph is rebuilt under extra edge-insertion orders (reversed + seeded) and queried again at
+    # the order-independent times: the traversal order of the implementation follows insertion order
+    prof4 = profile(WALKS4, rel_order, orders=2 if quick else 1)
+    prof7 = profile(WALKS_SHORT, rel_order, orders=2)
+    prof6 = profile(WALKS_SHORT, rel_order, orders=3)
+    profcap = profile(WALKS_LONG, rel_order, orders=1)
 
     # ---------------------------------------------------------------- 1. design level (runs beside 2./3.)
     ALGD = "<- c_DepthsAlg"
@@ -192,13 +218,14 @@ def run(tier):
         alg_runs = [("MC_Paths_alg_live5", dict(BASE, MaxEdges=5, DepthSeq=ALGD)),
                     ("MC_Paths_alg_time2", dict(BASE, MaxEdges=2, MaxDead=2, AlgTimes='"all"', DepthSeq=ALGD))]
     alg_runs.append(("MC_Paths_alg_chains", dict(CHAINS)))
+    alg_runs.append(("MC_Paths_alg_routes", dict(ROUTES, DepthSeq=ALGD)))
 
     def do_alg(name, consts):
         # on 7 nodes the two auxiliary lemmas (BFS labels, level sets) are left to the 4-node runs
-        invs = [i for i in ALG_INVS if i not in ("Inv_ScopeLabels", "Inv_ReachIsLevelSet")] if consts["N"] == 7 else None
+        invs = [i for i in ALG_INVS if i not in ("Inv_ScopeLabels", "Inv_ReachIsLevelSet")] if consts["N"] != 4 else None
         return name, consts, alg_check(chk, name, consts, workers=max(2, vlib.NCPU // 2), timeout=900 if quick else 3000, invs=invs)
 
-    pool = ThreadPoolExecutor(max_workers=3)
+    pool = ThreadPoolExecutor(max_workers=4)
     alg_futures = [pool.submit(do_alg, name, consts) for name, consts in alg_runs]
 
     # ---------------------------------------------------------------- 2. corpus + 3. binding
@@ -233,6 +260,9 @@ def run(tier):
         bind("MC_Paths_corpus_live5", dict(BASE, MaxEdges=5, MaxDead=0), prof4, orbit=("live", 5))
         bind("MC_Paths_corpus_any4", dict(BASE, MaxEdges=4, MaxDead=4), prof4, orbit=("any", 4),
              keep=lambda x: any(v[4] != 0 for v in x["vers"]))
+    bind("MC_Paths_corpus_routes", dict(ROUTES), prof6)
+    sample6 = sample_graphs6(random.Random(vlib.seed() + 2000), 40 if quick else 400)
+    bind("MC_Paths_corpus_sample6", dict(ROUTES, Seeds=seeds_literal(sample6)), prof6)
     bind("MC_Paths_corpus_chains", dict(CHAINS), prof7)
     bind("MC_Paths_corpus_cap", dict(CAP), profcap)
 
@@ -240,7 +270,7 @@ def run(tier):
     for fut in alg_futures:
         name, consts, r = fut.result()
         if r.violated:
-            reproduce_design_counterexample(chk, r, consts, prof4 if consts["N"] == 4 else prof7)
+            reproduce_design_counterexample(chk, r, consts, prof4 if consts["N"] == 4 else prof7 if consts["N"] == 7 else prof6)
     pool.shutdown()
 
     chk.cov["traces_validated_against_impl"] = totals.get("graphs", 0)
@@ -288,7 +318,8 @@ def replay_file(path):
     g, prof = rec["graph"], rec["profile"]
     chk = Check(PROP, "replay")
     # regenerate the expected answers from the specification for exactly this graph
-    consts = dict(rec.get("constants") or BASE)
+    consts = dict(BASE)
+    consts.update(rec.get("constants") or {})
     consts.update(Seeds=seeds_literal([g["g"]]), Grow="FALSE")
     recs, _ = corpus_run(chk, "MC_Paths_replay", consts, workers=2, timeout=600)
     if len(recs) != 1:
